@@ -36,7 +36,8 @@ def run(ctx):
                         "no disconnect() of another task is in flight when a message is dispatched",
                         "per-message reachability from every abstract pre-state (the pre-state set is all states): multi-message arithmetic is not decided"]
     it, outs = absint.inbound(repo)
-    ctx.extra["e9"] = {"steps": it.steps, "events": len(it.events), "final_configurations": len(outs)}
+    ctx.extra["e9"] = {"steps": it.steps, "events": len(it.events), "final_configurations": len(outs),
+                       "nondeterministic_conditions": sorted(it.unknown_conds)[:40]}
     ctx.evaluations += it.steps
 
     # ---- rule 1
